@@ -418,7 +418,32 @@ func checkC06(ref *progen.Ref, o *runOut) []finding {
 	case errors.Is(o.err, context.DeadlineExceeded):
 		value = "ctx-deadline"
 	}
-	out = append(out, finding{fmt.Sprintf("substitute(%s,%s)", origin, value), fmt.Sprintf("provider %s failed with %q, the injector returned %q although the caller never cancelled", F[0].Name, F[0].Err, o.err)})
+	// which kind of provider failed: Async-marked, synchronous behind an Async ancestor (may live in a
+	// goroutine), or synchronous with no Async ancestor at all (belongs on the injector's own thread)
+	classes := map[string]bool{}
+	for _, c := range F {
+		rc := ref.Calls[c.Name]
+		cl := "sync-no-async-ancestor"
+		switch {
+		case rc == nil:
+			cl = "unneeded"
+		case rc.Async:
+			cl = "async"
+		default:
+			for a := range ref.Ancestors[c.Name] {
+				if ra := ref.Calls[a]; ra != nil && ra.Async {
+					cl = "sync-after-async"
+				}
+			}
+		}
+		classes[cl] = true
+	}
+	var cls []string
+	for k := range classes {
+		cls = append(cls, k)
+	}
+	sort.Strings(cls)
+	out = append(out, finding{fmt.Sprintf("substitute(%s,%s,failed=%s)", origin, value, strings.Join(cls, "+")), fmt.Sprintf("provider %s failed with %q, the injector returned %q although the caller never cancelled", F[0].Name, F[0].Err, o.err)})
 	return out
 }
 
